@@ -26,6 +26,9 @@ def streams(rnd, tier):
     out.append(("registry", [l for i in range(40 * k) for l in g.script(i % 2)], ()))
     wg = worldcommon.WorldGen(rnd, tier, c05.PROFILE)
     out.append(("world", [l for i in range(20 * k) for l in wg.script(i % 2)], ()))
+    # every entry point on its own around every mutation (each C entry point carries its own copy of the cache / verify logic)
+    wg1 = worldcommon.WorldGen(rnd, tier, dict(c05.PROFILE, single_entry=0.6, extra=0, provq=0, nregs=(2, 3), quiet=0.05, scen_entry=0.2))
+    out.append(("world", [l for i in range(40 * k) for l in wg1.script(1 if i % 4 else 0)], ()))
     out.append(("order", [l for _ in range(8 * k) for l in c12.gen_script(rnd, tier)[0]], ()))
     out.append(("adapt", c14.gen_lines(rnd, tier)[::3 if not big else 1], ()))
     out.append(("declalg", [l for _ in range(100 * k) for l in c20.gen_script(rnd, tier)], ()))
